@@ -2,18 +2,23 @@ package cluster
 
 import (
 	"crypto/ed25519"
+	"encoding/base64"
 	"encoding/json"
 	"fmt"
 	"os"
 	"sort"
 	"strings"
 
+	"github.com/corestario/kyber/encrypt/ecies"
+	"github.com/corestario/kyber/pairing/bls12381"
+
 	"github.com/lidofinance/dc4bc/client/types"
 	"github.com/lidofinance/dc4bc/storage"
 )
 
 var c18Kinds = []string{"field-deleted", "type-confused", "negative-int", "huge-int", "empty-array", "oversized-array",
-	"short-id", "unknown-event", "unknown-round", "junk-bytes-value", "truncated-bytes-value", "baked-range-negative", "baked-range-huge", "not-json", "null-value", "deep-nesting"}
+	"short-id", "unknown-event", "unknown-round", "junk-bytes-value", "truncated-bytes-value", "baked-range-negative", "baked-range-huge", "not-json", "null-value", "deep-nesting",
+	"sealed-deal-mutated-inside"}
 
 // mutateJSON applies one structure-aware mutation to a JSON document.
 func mutateJSON(w *World, data []byte, kind string) ([]byte, bool) {
@@ -229,7 +234,8 @@ func runC18(w *World, tier string) (bool, interface{}) {
 	c.L.Faults.PermuteResults = true
 	members := AllMembers(n)
 	budget := 4 + w.Tape.Choose(5, "mutants")
-	acceptedFiles := 0 // malformed operation files the machine answered with a success result
+	acceptedFiles := 0                // malformed operation files the machine answered with a success result
+	refusedFor := map[string]string{} // machine|op id -> kind of the malformed variant that was refused just before the genuine file
 	injected := 0
 	judged := 0
 	var kinds []string
@@ -279,6 +285,10 @@ func runC18(w *World, tier string) (bool, interface{}) {
 				var d []byte
 				ok := false
 				switch kind {
+				case "sealed-deal-mutated-inside":
+					// structure-aware mutation under the encryption layer: a deal addressed to this
+					// machine is opened with its key (hook H2), mutated as JSON and sealed again
+					d, ok = mutateSealedDeal(w, w.Airs[i], opJSON)
 				case "unknown-event", "unknown-round", "baked-range-negative", "baked-range-huge":
 					var om map[string]interface{}
 					if json.Unmarshal(opJSON, &om) == nil {
@@ -338,14 +348,20 @@ func runC18(w *World, tier string) (bool, interface{}) {
 					tk.panicV = nil
 					return
 				}
+				refusedNow := perr != nil
 				if perr == nil {
 					// an error result is the machine's way of refusing the step
 					var ro types.Operation
 					if fs := a.ResultFiles(); len(fs) > 0 {
 						if b, e := os.ReadFile(resultPathOf(a, d)); e == nil && json.Unmarshal(b, &ro) == nil && !strings.Contains(string(ro.Event), "error") && !strings.Contains(string(ro.Event), "decline") {
 							acceptedFiles++
+						} else if e == nil {
+							refusedNow = true
 						}
 					}
+				}
+				if refusedNow {
+					refusedFor[fmt.Sprintf("%d|%s", i, o.ID)] = kind
 				}
 				if perr != nil {
 					after, _ := a.M.SimSnapshot()
@@ -353,6 +369,24 @@ func runC18(w *World, tier string) (bool, interface{}) {
 						w.Fail("C18", "rejected-operation-file-changed-state/"+kind+"/"+string(o.Type), fmt.Sprintf("machine %d rejected the file (%v) but its database changed in %v / result files %d -> %d", i, perr, dd, files, len(a.ResultFiles())))
 					}
 					w.Stats.Probe("rejected-operation-file-judged")
+				}
+			}
+		}
+		if surface == 1 {
+			op.OnResult = func(o *types.Operation, result []byte, rp *APIResult) {
+				kind, was := refusedFor[fmt.Sprintf("%d|%s", i, o.ID)]
+				if !was || result == nil {
+					return
+				}
+				var ro types.Operation
+				if json.Unmarshal(result, &ro) != nil {
+					return
+				}
+				if strings.Contains(string(ro.Event), "error") {
+					w.Fail("C18", "refused-operation-file-poisons-machine/"+string(o.Type)+"/"+kind,
+						fmt.Sprintf("machine %d refused a %s variant of the %s operation file; the genuine file, fed right afterwards, is now answered with %s", i, kind, o.Type, ro.Event))
+				} else {
+					w.Stats.Probe("genuine-file-accepted-after-refused-variant")
 				}
 			}
 		}
@@ -409,18 +443,6 @@ func runC18(w *World, tier string) (bool, interface{}) {
 	if !w.Failed() {
 		c.L.Quiesce(8)
 	}
-	// malformed operation files are only shown to the machines (their results
-	// are never submitted): if every one of them was refused, the machines must
-	// be as good as before and the honest ceremony must complete
-	if surface == 1 && injected > 0 && acceptedFiles == 0 && !w.Failed() {
-		done := c.AllInState(round, StIdle, members) && len(c.Tr.Order) > 0 && c.Tr.AllHaveBatch(c.Tr.LastBatch(), members)
-		if !done {
-			sort.Strings(kinds)
-			w.Fail("C18", "machine-poisoned-by-refused-operation-file/"+firstKind(kinds), fmt.Sprintf("every malformed operation file was refused by the machines, yet the honest ceremony did not complete: states %v; files %v", states(c, round), kinds))
-		} else {
-			w.Stats.Probe("ceremony-completed-after-refused-files")
-		}
-	}
 	for _, nd := range w.Nodes {
 		if len(nd.Panics) > 0 && !w.Failed() {
 			w.Fail("C18", "node-panic", strings.Join(nd.Panics, "; "))
@@ -459,6 +481,54 @@ func panicSite(stack string) string {
 		}
 	}
 	return strings.Join(out, " <- ")
+}
+
+// mutateSealedDeal rewrites one DkgDeal entry of a responses-step operation file.
+func mutateSealedDeal(w *World, a *AirNode, opJSON []byte) ([]byte, bool) {
+	var om map[string]json.RawMessage
+	if json.Unmarshal(opJSON, &om) != nil {
+		return nil, false
+	}
+	var typ string
+	_ = json.Unmarshal(om["Type"], &typ)
+	if typ != "state_dkg_responses_await_confirmations" {
+		return nil, false
+	}
+	var pl []byte
+	if json.Unmarshal(om["Payload"], &pl) != nil {
+		return nil, false
+	}
+	var entries []map[string]interface{}
+	if json.Unmarshal(pl, &entries) != nil || len(entries) == 0 {
+		return nil, false
+	}
+	suite := bls12381.NewBLS12381Suite(nil)
+	for _, k := range permOf(w, len(entries)) {
+		b64, _ := entries[k]["DkgDeal"].(string)
+		ct, err := base64.StdEncoding.DecodeString(b64)
+		if err != nil {
+			continue
+		}
+		pt, err := a.M.SimDecrypt(ct)
+		if err != nil {
+			continue // the self-confirmation or a deal for somebody else
+		}
+		inner := []string{"negative-int", "huge-int", "null-value", "field-deleted", "type-confused", "junk-bytes-value", "truncated-bytes-value", "empty-array"}
+		md, ok := mutateJSON(w, pt, inner[w.Tape.Choose(len(inner), "innerKind")])
+		if !ok {
+			continue
+		}
+		enc, err := ecies.Encrypt(suite, a.M.GetPubKey(), md, suite.Hash)
+		if err != nil {
+			continue
+		}
+		entries[k]["DkgDeal"] = base64.StdEncoding.EncodeToString(enc)
+		npl, _ := json.Marshal(entries)
+		om["Payload"], _ = json.Marshal(npl)
+		out, _ := json.Marshal(om)
+		return out, true
+	}
+	return nil, false
 }
 
 func firstKind(kinds []string) string {
